@@ -137,6 +137,7 @@ structure Inv (hr : String → String → Bool) (h : Heap) (g : Nat → Option N
   dom : ∀ a a', g a = some a' → st.get a ≠ none
   inj : ∀ a b c, g a = some c → g b = some c → a = b
   bound : ∀ a a', g a = some a' → a' < L.heap.size
+  surj : ∀ a', a' < L.heap.size → ∃ a, g a = some a'
   cell : ∀ a a', g a = some a' → ∃ o, h[a]? = some o ∧ (Done opn a o → ∃ o', L.heap[a']? = some o' ∧ ObjRel g o o')
 
 variable {hr : String → String → Bool} {h : Heap} {g : Nat → Option Nat} {opn : Nat → Prop} {st : DState} {L : LState}
@@ -157,6 +158,7 @@ theorem Inv.emit_gen (I : Inv hr h g opn st L) {op : Op} {L' : LState} (hs : ste
   dom := I.dom
   inj := I.inj
   bound := fun a a' e => by rw [hsz]; exact I.bound a a' e
+  surj := fun a' ha' => I.surj a' (by rw [← hsz]; exact ha')
   cell := fun a a' e => by
     obtain ⟨o, ho, hd⟩ := I.cell a a' e
     refine ⟨o, ho, fun d => ?_⟩
@@ -209,7 +211,8 @@ theorem Inv.alloc_memoize (I : Inv hr h g opn st L) {op : Op} {L1 : LState} (hs 
   have hext : Ext g (upd g a L.heap.size) := Ext.upd hgn _
   refine ⟨hstep, ?_⟩
   refine
-    { runs := ?_, tblsz := ?_, memosz := ?_, heapsz := ?_, memo_of := ?_, dom := ?_, inj := ?_, bound := ?_, cell := ?_ }
+    { runs := ?_, tblsz := ?_, memosz := ?_, heapsz := ?_, memo_of := ?_, dom := ?_, inj := ?_, bound := ?_, cell := ?_,
+      surj := ?_ }
   · have : ((st.emit op).memoize a).out.toList = (st.out.toList ++ [op]) ++ [.memoize] := by
       simp [DState.memoize, DState.emit]
     rw [this]
@@ -270,6 +273,16 @@ theorem Inv.alloc_memoize (I : Inv hr h g opn st L) {op : Op} {L1 : LState} (hs 
     · simp only [hb, if_false] at e
       have := I.bound b b' e
       simp; omega
+  · intro b' hb'
+    have hb2 : b' < L.heap.size + 1 := by
+      have : b' < L1.heap.size := hb'
+      rw [hheap] at this
+      simpa using this
+    by_cases hlt : b' < L.heap.size
+    · obtain ⟨b, eb⟩ := I.surj b' hlt
+      exact ⟨b, hext _ _ eb⟩
+    · have : b' = L.heap.size := by omega
+      exact ⟨a, by rw [this]; exact upd_self _ _ _⟩
   · intro b b' e
     by_cases hb : b = a
     · subst hb
